@@ -6,7 +6,7 @@ from ..model import Program, AnalysisError, own_nodes, norm, names_in, FuncInfo,
 from ..cfg import cfg_of
 from ..guards import Env, walk
 from ..report import Report
-from ..util import helper_scopes, callee_last, parents, enclosing_stmt, depends_on
+from ..util import helper_scopes, inline_temps, callee_last, parents, enclosing_stmt, depends_on
 
 FM = 'fggs.formats'
 
@@ -69,6 +69,7 @@ def run(prog: Program, rep: Report, tier: str) -> None:
                f"written {sorted(wa | wc)}" + (f"; never read: {sorted(lost)}" if lost else ''))
     discriminators(rep, prog)
     index_checks(rep, prog)
+    ordered_fields(rep, prog)
     constructor_arguments(rep, prog)
     persist_id(rep, prog)
     dense_interface(rep, prog)
@@ -149,6 +150,41 @@ def constructor_arguments(rep: Report, prog: Program) -> None:
     rep.analysed['constructor_calls_examined'] = n
     ctl = ast.parse("def f(doms, d):\n    return ConstantFactor(d['weight'], doms)\n")
     rep.ob('C14-D1 constructor-arguments', 'positive-control', 'argument names are read off identifiers, attributes and constant subscripts', '-', True, f"{n} constructor call(s) of the reader/writer examined", nontrivial=False)
+
+
+def ordered_fields(rep: Report, prog: Program) -> None:
+    """`externals` and `attachments` are sequences (position i is argument i of the left-hand side / of the edge label): the
+    writer emits them in the order of rhs.ext / edge.nodes, never sorted or through a set."""
+    rule = 'C14-D1 ordered-fields'
+    f = prog.func(FM, 'hrg_to_json')
+    from ..util import single_assignments
+    temps = single_assignments(f.node)
+    sites = []
+    for d in [x for x in ast.walk(f.node) if isinstance(x, ast.Dict)]:
+        for k, v in zip(d.keys, d.values):
+            if isinstance(k, ast.Constant) and k.value in ('externals', 'attachments'):
+                sites.append((k.value, v))
+    for st in [x for x in ast.walk(f.node) if isinstance(x, ast.Assign) and isinstance(x.targets[0], ast.Subscript) and isinstance(x.targets[0].slice, ast.Constant)
+               and x.targets[0].slice.value in ('externals', 'attachments')]:
+        sites.append((st.targets[0].slice.value, st.value))
+    for key, v in sites:
+        v2 = temps.get(v.id, v) if isinstance(v, ast.Name) else v          # the list may have been given a name first
+        src = '.ext' if key == 'externals' else '.nodes'
+        why = None
+        comps = [x for x in ast.walk(v2) if isinstance(x, (ast.ListComp, ast.GeneratorExp, ast.SetComp)) and x.generators and src in norm(x.generators[0].iter)]
+        if norm(v2).endswith(src) or (isinstance(v2, ast.Call) and callee_last(v2) in ('list', 'tuple') and v2.args and norm(v2.args[0]).endswith(src)):
+            pass
+        elif not comps:
+            why = f"not built from `{src}`"
+        else:
+            c = comps[0]
+            wrappers = [x for x in ast.walk(v2) if isinstance(x, ast.Call) and callee_last(x) in ('sorted', 'set', 'frozenset', 'reversed') and any(y is c for a in x.args for y in ast.walk(a))]
+            inner = [x for x in ast.walk(c.generators[0].iter) if isinstance(x, ast.Call) and callee_last(x) in ('sorted', 'set', 'frozenset', 'reversed')]
+            if isinstance(c, ast.SetComp) or wrappers or inner or c.generators[0].ifs:
+                why = f"`{norm((wrappers or inner or [c])[0])[:60]}` reorders, deduplicates or filters the sequence"
+        rep.ob(rule, f.fq(), f"'{key}': {norm(v)[:70]}", f.loc(v), why is None,
+               f"written position by position in the order of {src}" if why is None else why + ': position i no longer is argument i')
+    rep.floor('C14-D1 ordered fields', len(sites), 2)
 
 
 def index_checks(rep: Report, prog: Program) -> None:
